@@ -334,12 +334,21 @@ impl Monitor for C14 {
                 let c = wcet::Curve::from_iter(raw.iter().map(|x| Service::from(*x)));
                 let cum: Vec<u64> = (0..=3 * n + 2).map(|k| u64::from(c.cost_of_jobs(k))).collect();
                 let items: Vec<u64> = c.job_cost_iter().take(3 * n + 2).map(u64::from).collect();
-                (cum, items)
+                let least: Vec<u64> = (0..=3 * n + 2).map(|k| u64::from(c.least_wcet(k))).collect();
+                (cum, items, least)
             });
             rep.count("from_iter_curves_checked", 1);
             match r {
                 Err(c) => rep.violation(format!("C14 model=Curve::from_iter kind={} class={}", c.kind, c.class()), jobj! {"input"=>&raw,"caught"=>c.to_json()}),
-                Ok((cum, items)) => {
+                Ok((cum, items, least)) => {
+                    // (these vectors are in general NOT sub-additive: the first job may be the cheapest)
+                    for k in 1..cum.len() {
+                        let m = *items[..k].iter().min().unwrap();
+                        if least[k] > m {
+                            rep.violation("C14 model=Curve::from_iter kind=least_wcet-above-a-job-cost".to_string(), jobj! {"input"=>&raw,"n"=>k,"least_wcet"=>least[k],"smallest_of_first_n_items"=>m,"items"=>&items[..k]});
+                            break;
+                        }
+                    }
                     // running maximum = what the constructor promises for the first n values
                     let mut hull = raw.clone();
                     for i in 1..n {
